@@ -415,3 +415,149 @@ def leafcheck(repo):
     res.samples = [f"leaf checks: {sorted(leaf)}"]
     res.analysed = [m.rel]
     return res
+
+
+def skelmut(repo):
+    """R-SKELMUT (C17): the expression skeletons of synthetics.py (`NAME = expression_parser.parse("...")`, or a dict of
+    them) are created once per process.  A use that goes through `ir_data_utils.copy(SKEL)` is private to the call;
+    a use that puts the skeleton itself into a freshly built holder (`ir_data.Field(read_transform=SKEL[name])`) shares
+    it with every later call.  For such a shared use the only write that keeps compilation a function of its inputs is
+    an idempotent marker (a function whose stores assign constants only -- `_mark_as_synthetic`) that runs *before* the
+    holder is copied into the IR (repeated IR fields copy on insert): written after the insert, the first structure of
+    a process gets the unmarked skeleton and every later one the marked one.  Decided per function, in statement order
+    of the enclosing block."""
+    res = RuleResult("R-SKELMUT")
+    m = repo.mod(SYN)
+
+    def is_parse(v):
+        return isinstance(v, ast.Call) and (call_name(v) or "").endswith(".parse")
+    skels = set()
+    for name, vals in m.assigns.items():
+        v = vals[-1]
+        if is_parse(v) or (isinstance(v, ast.Dict) and v.values and all(is_parse(x) for x in v.values)) or \
+                (isinstance(v, (ast.List, ast.Tuple)) and v.elts and all(is_parse(x) for x in v.elts)):
+            skels.add(name)
+    if len(skels) < 4:
+        raise AnalysisError(f"synthetics: only {len(skels)} module-level skeletons found")
+    # idempotent markers: functions of the module whose stores (transitively through self calls) assign constants only
+    funcs = {f.name: f for f in m.top_funcs()}
+
+    def const_only(f, seen=()):
+        ok = False
+        for n in walk_no_nested_funcs(f.node):
+            if isinstance(n, (ast.Assign, ast.AugAssign)):
+                tg = n.targets if isinstance(n, ast.Assign) else [n.target]
+                for t in tg:
+                    if isinstance(t, (ast.Attribute, ast.Subscript)):
+                        replace_const = isinstance(n, ast.Assign) and isinstance(n.value, ast.Call) and isinstance(n.value.func, ast.Attribute) \
+                            and n.value.func.attr == "_replace" and not n.value.args and n.value.keywords \
+                            and all(isinstance(k.value, ast.Constant) for k in n.value.keywords)
+                        if isinstance(n, ast.AugAssign) or not (isinstance(n.value, ast.Constant) or replace_const):
+                            return False
+                        ok = True
+            elif isinstance(n, ast.Call):
+                cn = call_name(n) or ""
+                if cn.endswith(("CopyFrom", ".extend", ".append", ".update", ".clear", ".pop", ".insert")):
+                    return False
+                if cn in funcs and cn != f.name and cn not in seen:
+                    if not const_only(funcs[cn], seen + (f.name,)):
+                        return False
+        return ok
+    markers = {n for n, f in funcs.items() if const_only(f)}
+
+    def mentions(e, names):
+        return any(isinstance(x, ast.Name) and x.id in names for x in ast.walk(e))
+
+    def is_copy(call):
+        cn = call_name(call) or ""
+        return cn.endswith((".copy", "deepcopy", ".CopyFrom")) or cn == "copy"
+    for f in m.top_funcs():
+        for n in walk_no_nested_funcs(f.node):
+            if not (isinstance(n, ast.Name) and n.id in skels and isinstance(n.ctx, ast.Load)):
+                continue
+            res.instances += 1
+            # climb to the statement; a copy call on the way makes the use private
+            private = False
+            holder = None
+            node = n
+            stmt = None
+            while node is not None and node is not f.node:
+                parent = m.parent(node)
+                if isinstance(parent, ast.Call) and is_copy(parent) and node in parent.args:
+                    private = True
+                if isinstance(parent, ast.stmt):
+                    stmt = parent
+                    break
+                node = parent
+            if private or stmt is None:
+                continue
+            if isinstance(stmt, ast.Assign) and len(stmt.targets) == 1 and isinstance(stmt.targets[0], ast.Name):
+                holder = stmt.targets[0].id
+            elif isinstance(stmt, (ast.For, ast.If, ast.While, ast.Return, ast.Assert, ast.Expr)) and not isinstance(stmt, ast.Expr):
+                # read-only uses: iteration over the table, membership tests
+                if isinstance(stmt, ast.Return):
+                    res.add(f"{m.rel}|{f.name}|{n.id}|return", f"{f.name} returns the module-level skeleton `{n.id}` itself (no copy): "
+                            "callers share one object across compilations", m.rel, stmt.lineno, f.name)
+                continue
+            if holder is None:
+                # skeleton handed directly to a call statement
+                if isinstance(stmt, ast.Expr) and isinstance(stmt.value, ast.Call) and (call_name(stmt.value) or "") not in markers:
+                    res.add(f"{m.rel}|{f.name}|{n.id}|direct", f"{f.name}: `{ast.unparse(stmt)[:80]}` hands the module-level skeleton "
+                            f"`{n.id}` to code that may write to it", m.rel, stmt.lineno, f.name)
+                continue
+            # the holder shares the skeleton: look at the rest of the block in order
+            block = None
+            for b in ast.walk(f.node):
+                for fld in ("body", "orelse", "finalbody"):
+                    if isinstance(getattr(b, fld, None), list) and stmt in getattr(b, fld):
+                        block = getattr(b, fld)
+            rest = block[block.index(stmt) + 1:] if block else []
+            inserted_at = None
+            holders = {holder}
+            for st in rest:
+                # views of the holder (`b = ir_data_utils.builder(h)`, `x = h.function`) reach the same skeleton
+                if isinstance(st, ast.Assign) and len(st.targets) == 1 and isinstance(st.targets[0], ast.Name) \
+                        and mentions(st.value, holders) and not (isinstance(st.value, ast.Call) and is_copy(st.value)):
+                    holders.add(st.targets[0].id)
+                    continue
+                for c in ast.walk(st):
+                    if not isinstance(c, ast.Call):
+                        continue
+                    cn = call_name(c) or (c.func.attr if isinstance(c.func, ast.Attribute) else "")
+                    args_m = any(mentions(a, holders) for a in c.args) or any(mentions(k.value, holders) for k in c.keywords)
+                    recv_m = isinstance(c.func, ast.Attribute) and mentions(c.func.value, holders)
+                    if cn in markers and args_m:
+                        if inserted_at is not None:
+                            res.add(f"{m.rel}|{f.name}|{n.id}|mark-after-insert", f"{f.name}: `{ast.unparse(c)[:70]}` marks the shared skeleton "
+                                    f"`{n.id}` (held by `{holder}` without a copy) after `{holder}` was copied into the IR at line "
+                                    f"{inserted_at}: the first structure compiled in a process gets the unmarked expression, later ones "
+                                    "the marked one -- output depends on what was compiled before", m.rel, c.lineno, f.name)
+                        continue
+                    if args_m and cn.split(".")[-1] in ("extend", "append", "insert", "CopyFrom") or (args_m and is_copy(c)):
+                        if inserted_at is None:
+                            inserted_at = c.lineno
+                        continue
+                    if recv_m and cn.split(".")[-1] in ("CopyFrom", "extend", "append", "insert", "clear", "pop", "update"):
+                        res.add(f"{m.rel}|{f.name}|{n.id}|write", f"{f.name}: `{ast.unparse(c)[:70]}` writes call-dependent data through "
+                                f"`{holder}`, which holds the module-level skeleton `{n.id}` without a copy", m.rel, c.lineno, f.name)
+                    elif args_m and cn in funcs and cn not in markers and not const_only(funcs[cn]) and any(
+                            isinstance(x, (ast.Assign, ast.AugAssign)) for x in ast.walk(funcs[cn].node)):
+                        pass  # helper functions that read the holder: not decided here
+                for c in ast.walk(st):
+                    if isinstance(c, (ast.Assign, ast.AugAssign)):
+                        tg = c.targets if isinstance(c, ast.Assign) else [c.target]
+                        for t in tg:
+                            if isinstance(t, (ast.Attribute, ast.Subscript)) and mentions(t, holders) and not isinstance(t, ast.Name):
+                                root = t
+                                while isinstance(root, (ast.Attribute, ast.Subscript)):
+                                    root = root.value
+                                if isinstance(root, ast.Name) and root.id == holder and isinstance(t, ast.Attribute) and isinstance(t.value, ast.Name) \
+                                        and not (isinstance(stmt.value, (ast.Name, ast.Subscript))):
+                                    continue  # holder.x = ...: rebinding a member of the fresh holder, not a write into the skeleton
+                                res.add(f"{m.rel}|{f.name}|{n.id}|store", f"{f.name}: `{ast.unparse(c)[:70]}` stores into the module-level "
+                                        f"skeleton `{n.id}` reached through `{holder}`", m.rel, c.lineno, f.name)
+    if res.instances < 5 and not res.findings:
+        raise AnalysisError(f"only {res.instances} uses of module-level skeletons recognised")
+    res.detail = {"skeletons": sorted(skels), "markers": sorted(markers)}
+    res.analysed = [m.rel]
+    return res
